@@ -1,4 +1,135 @@
-//! Watched worker process (property C08): see c08.rs. Filled in later.
+//! Watched worker process (property C08).
+//!
+//! The parent generates and shrinks cases with proptest; each case is sent as one JSON line to
+//! a child `vpcheck --worker`, which executes it and answers with one JSON line. The parent
+//! polls the child's CPU time (/proc/<pid>/stat, load independent). Over budget => kill,
+//! respawn, outcome Hang. A panic inside the child is caught there and reported as a failure;
+//! a child that dies (abort, stack overflow, OOM kill) is reported as Died.
+use serde_json::Value;
+use std::io::{BufRead, BufReader, Write};
+use std::process::{Child, ChildStdin, Command, Stdio};
+use std::sync::mpsc::{channel, Receiver, RecvTimeoutError};
+use std::time::{Duration, Instant};
+
+pub enum WorkerResult {
+    /// the child's answer line
+    Done(Value),
+    /// CPU budget exceeded (seconds used)
+    Hang(f64),
+    /// the child terminated without answering
+    Died(String),
+}
+
+pub struct Worker {
+    child: Child,
+    stdin: ChildStdin,
+    rx: Receiver<String>,
+}
+
+fn cpu_seconds(pid: u32) -> Option<f64> {
+    let s = std::fs::read_to_string(format!("/proc/{pid}/stat")).ok()?;
+    // fields after the closing parenthesis of the command name
+    let rest = &s[s.rfind(')')? + 2..];
+    let f: Vec<&str> = rest.split_whitespace().collect();
+    let utime: f64 = f.get(11)?.parse().ok()?;
+    let stime: f64 = f.get(12)?.parse().ok()?;
+    let hz = unsafe { libc::sysconf(libc::_SC_CLK_TCK) } as f64;
+    Some((utime + stime) / hz)
+}
+
+impl Worker {
+    pub fn spawn() -> std::io::Result<Worker> {
+        let exe = std::env::current_exe()?;
+        let mut child = Command::new(exe).arg("--worker").stdin(Stdio::piped()).stdout(Stdio::piped()).stderr(Stdio::null()).spawn()?;
+        let stdin = child.stdin.take().unwrap();
+        let stdout = child.stdout.take().unwrap();
+        let (tx, rx) = channel();
+        std::thread::spawn(move || {
+            let r = BufReader::new(stdout);
+            for line in r.lines() {
+                match line {
+                    Ok(l) => {
+                        if tx.send(l).is_err() {
+                            break;
+                        }
+                    }
+                    Err(_) => break,
+                }
+            }
+        });
+        Ok(Worker { child, stdin, rx })
+    }
+
+    /// send one request line, wait for the answer under a CPU-time budget (seconds)
+    pub fn run(&mut self, request: &str, cpu_budget: f64) -> WorkerResult {
+        let pid = self.child.id();
+        let cpu0 = cpu_seconds(pid).unwrap_or(0.0);
+        if writeln!(self.stdin, "{request}").and_then(|_| self.stdin.flush()).is_err() {
+            return WorkerResult::Died("cannot write to the worker".into());
+        }
+        let t0 = Instant::now();
+        loop {
+            match self.rx.recv_timeout(Duration::from_millis(20)) {
+                Ok(line) => {
+                    return match serde_json::from_str::<Value>(&line) {
+                        Ok(v) => WorkerResult::Done(v),
+                        Err(e) => WorkerResult::Died(format!("unparsable answer {line:?}: {e}")),
+                    }
+                }
+                Err(RecvTimeoutError::Timeout) => {
+                    let used = cpu_seconds(pid).map(|c| c - cpu0);
+                    match used {
+                        Some(u) if u > cpu_budget => {
+                            self.kill();
+                            return WorkerResult::Hang(u);
+                        }
+                        None => {
+                            // process gone
+                            let st = self.child.try_wait().ok().flatten().map(|s| s.to_string()).unwrap_or_else(|| "unknown".into());
+                            return WorkerResult::Died(format!("worker exited: {st}"));
+                        }
+                        _ => {}
+                    }
+                    // safety net against a child that neither computes nor answers
+                    if t0.elapsed().as_secs_f64() > 30.0 * cpu_budget + 60.0 {
+                        self.kill();
+                        return WorkerResult::Died("worker neither answered nor used CPU time (stalled)".into());
+                    }
+                }
+                Err(RecvTimeoutError::Disconnected) => {
+                    let st = self.child.wait().map(|s| s.to_string()).unwrap_or_else(|_| "unknown".into());
+                    return WorkerResult::Died(format!("worker exited: {st}"));
+                }
+            }
+        }
+    }
+
+    pub fn kill(&mut self) {
+        let _ = self.child.kill();
+        let _ = self.child.wait();
+    }
+}
+
+impl Drop for Worker {
+    fn drop(&mut self) {
+        self.kill();
+    }
+}
+
+/// child side: read requests, execute, answer
 pub fn worker_main() -> i32 {
-    2
+    let stdin = std::io::stdin();
+    let stdout = std::io::stdout();
+    for line in stdin.lock().lines() {
+        let Ok(line) = line else { break };
+        if line.trim().is_empty() {
+            continue;
+        }
+        let answer = crate::props::c08::worker_execute(&line);
+        let mut out = stdout.lock();
+        if writeln!(out, "{answer}").and_then(|_| out.flush()).is_err() {
+            break;
+        }
+    }
+    0
 }
